@@ -190,6 +190,12 @@ _cm18 = W.call_method
 def _call_method18(ex, recv, name, args, kwargs, line):
     if isinstance(recv, V) and recv.ty == FNAME and name == 'endswith' and args == ['.json']:
         return V(is_json(recv.t), BOOL)
+    if isinstance(recv, C) and isinstance(recv.ty, SetOf) and recv.ty.elem == ENTRY and name == 'sort':
+        # the list of one day is ordered newest first: by the key whose contract says it leads with the completion time, reversed
+        key, rev = kwargs.get('key'), kwargs.get('reverse', False)
+        ok = isinstance(key, Dotted) and key.path.endswith('chronicle._most_recent_first') and rev is True
+        ex.vc('post.sorted-newest-first@%d' % line, z3.BoolVal(bool(ok)), line, note='entries.sort(key=_most_recent_first, reverse=True) expected')
+        return None
     return _cm18(ex, recv, name, args, kwargs, line)
 
 
@@ -417,3 +423,123 @@ class append_(ContractBase):
                 'unvisited-untouched': Implies(Not(c.done[PAIR.mk(k, tv0)]), tm1[k] == tm0[k]),
                 'journals': c.cur.g('ghost.journals') == c.old.g('ghost.journals')}
     loops = {"for (key, value) in entry['timing'].items()": Loop(inv=_inv, modifies=['Entry.timing'])}
+
+
+# ------------------------------------------------------------------------------------------------ replay of find()
+def _find_replay(model, vc):
+    """rebuild the query, the clock and the day directories from the solver's model in a scratch chronicles tree, run the
+    real chronicle.find with a recording _load, and judge the recorded day walk with a plain Python oracle"""
+    import datetime as dtm
+    import os
+    import shutil
+    import tempfile
+    import dawgie.context
+    import dawgie.pl.logger.chronicle as chron
+    ev = lambda t: model.eval(t, model_completion=True)
+    base = z3.simplify(days_from_civil(z3.IntVal(2000), z3.IntVal(1), z3.IntVal(1))).as_long()
+
+    def instant(t):
+        days, us = ev(DT.get(t, 'days')).as_long(), ev(DT.get(t, 'us')).as_long()
+        return dtm.datetime(2000, 1, 1, tzinfo=dtm.UTC) + dtm.timedelta(days=days - base, microseconds=us)
+
+    def opt_dt(o):
+        return None if z3.is_true(ev(ODT.is_none(o))) else instant(ODT.val(o))
+    try:
+        after, before = opt_dt(vc.inputs['after']), opt_dt(vc.inputs['before'])
+        lim_t = vc.inputs['limit']
+        limit = None if z3.is_true(ev(OINT.is_none(lim_t))) else ev(OINT.val(lim_t)).as_long()
+        succeeded = z3.is_true(ev(vc.inputs['succeeded']))
+        now = instant(vc.inputs['now']) if 'now' in vc.inputs else None
+    except (OverflowError, ValueError) as e:
+        return {'reproduced': False, 'error': 'model outside the datetime range: %s' % e}
+    lo = after or dtm.datetime(1980, 1, 1, tzinfo=dtm.UTC)
+    hi = before or now or dtm.datetime(2030, 1, 1, tzinfo=dtm.UTC)
+    span = (hi.date() - lo.date()).days
+    if span > 20000 or span < 0:
+        lo = hi - dtm.timedelta(days=min(max(span, 0), 20000))
+    root = tempfile.mkdtemp(prefix='c18_replay_')
+    saved_dbs, saved_load, saved_dt = dawgie.context.data_dbs, chron._load, chron.datetime
+    calls = []
+    try:
+        # a day directory exists exactly where the model says so (days around the window)
+        existing = []
+        d = hi.date() + dtm.timedelta(days=2)
+        stop = lo.date() - dtm.timedelta(days=40)
+        while d >= stop:
+            n = (d - dtm.date(2000, 1, 1)).days + base
+            if z3.is_true(ev(DD(z3.IntVal(n)))):
+                os.makedirs(os.path.join(root, 'chronicles', '%04d' % d.year, '%02d' % d.month, '%02d' % d.day))
+                existing.append(d)
+            d -= dtm.timedelta(days=1)
+
+        def fake_load(a, b, journal, s):
+            y, m, dd = [int(x) for x in journal.split(os.sep)[-3:]]
+            calls.append((dtm.date(y, m, dd), a, b, s))
+            return [{'day': (y, m, dd), 'k': k} for k in range(2)]
+
+        class FakeDT(dtm.datetime):
+            @classmethod
+            def now(cls, tz=None):
+                t = now or hi
+                return cls(t.year, t.month, t.day, t.hour, t.minute, t.second, t.microsecond, tzinfo=dtm.UTC)
+        dawgie.context.data_dbs = root
+        chron._load = fake_load
+        chron.datetime = FakeDT
+        inp = {'after': str(after), 'before': str(before), 'limit': limit, 'succeeded': succeeded, 'now': str(now), 'day_directories': [str(x) for x in existing]}
+        try:
+            got = chron.find(after, before, limit, succeeded)
+        except ValueError:
+            ok = after is None and before is None and limit is None
+            return {'reproduced': not ok, 'input': inp, 'observed': 'ValueError', 'expected': 'only when all three are None'}
+        except Exception as e:
+            return {'reproduced': True, 'input': inp, 'observed': '%s: %s' % (type(e).__name__, e), 'expected': 'no exception'}
+        eff_limit = None if (after is not None and before is not None) else limit
+        a_eff = after or dtm.datetime(1980, 1, 1, tzinfo=dtm.UTC)
+        b_eff = before or FakeDT.now()
+        window = [x for x in existing if a_eff.date() <= x <= b_eff.date()]          # newest first already
+        problems = []
+        days = [c_[0] for c_ in calls]
+        if days != sorted(set(days), reverse=True):
+            problems.append('day directories not read once each, newest first: %s' % [str(x) for x in days])
+        if any(x not in window for x in days):
+            problems.append('a day outside the window was read')
+        if any((c_[1], c_[2], c_[3]) != (a_eff, b_eff, succeeded) for c_ in calls):
+            problems.append('_load was not given the window and outcome of the caller')
+        want_days = window if eff_limit is None else window[:max(1, -(-eff_limit // 2))]     # two entries per day in this replay
+        if eff_limit is None and days != window:
+            problems.append('not every day directory of the window was read')
+        if eff_limit is not None and (days != window[:len(days)] or (len(days) < len(window) and 2 * len(days) < eff_limit)):
+            problems.append('stopped early without enough entries, or skipped a newer day')
+        read = [e_ for d_ in days for e_ in [{'day': (d_.year, d_.month, d_.day), 'k': k} for k in range(2)]]
+        oldest = after is not None and a_eff > dtm.datetime(1980, 1, 1, tzinfo=dtm.UTC) and eff_limit is not None
+        want = read if eff_limit is None else (read[-eff_limit:] if oldest else read[:eff_limit])
+        if got != want:
+            problems.append('result is not the expected slice of what was read')
+        return {'reproduced': bool(problems), 'input': inp, 'observed': {'days_read': [str(x) for x in days], 'returned': len(got), 'problems': problems},
+                'expected': 'every existing day directory of the window once, newest first, with the window of the caller; the right slice'}
+    finally:
+        dawgie.context.data_dbs, chron._load, chron.datetime = saved_dbs, saved_load, saved_dt
+        shutil.rmtree(root, ignore_errors=True)
+
+
+find.replay = staticmethod(_find_replay)
+
+
+# ------------------------------------------------------------------------------------------------ the sort key
+completed_text = z3.Function('completion_time_text', ENTRY.sort(), ATOM.sort())      # entry['timing']['completed'] (ISO text: text order = time order)
+SORTKEY = Tup(ATOM, INT, ATOM, ATOM)
+
+
+@contract(W, 'dawgie/pl/logger/chronicle.py', '_most_recent_first', props=['C18'])
+class most_recent_first(ContractBase):
+    """entries of one day are compared by completion time first (run id, target, task only break ties)"""
+    params = {'entry': ENTRY}
+    returns = SORTKEY
+    modifies = []
+    abstract = {"entry['timing']['completed']": lambda ex, e: V(completed_text(ex.to_z3(ex.st.env['entry'], ENTRY)), ATOM),
+                "int(entry['runid'])": lambda ex, e: ex.get_field(ex.st.env['entry'], 'runid', e.lineno),
+                "entry['target']": ATOM, "entry['task']": ATOM}
+
+    def ensures(c):
+        return {'completion-time-leads': SORTKEY.get(c.result, '_0') == completed_text(c['entry']),
+                'run-id-breaks-ties': SORTKEY.get(c.result, '_1') == c.old.f('Entry.runid', c['entry'])}
